@@ -38,6 +38,9 @@ struct Flight {
     calls_ge13: u32,
     stream_no: u32,
     has_ext: bool,
+    /// superseded by a newer PDU on the same frag id: the sender may still continue it (its packets are then strays
+    /// of a transfer the receiver has given up); no expectation on their delivery
+    abandoned: bool,
 }
 
 #[derive(Clone, Debug, PartialEq)]
@@ -335,6 +338,7 @@ impl Scenario for Flow {
         }
         let mut walker_ok = true;
         let mut flights: Vec<Flight> = vec![];
+        let mut abandoned: Vec<Flight> = vec![];
         let mut frame: Vec<u8> = vec![];
         let mut frame_pkts: Vec<(usize, usize, RxObs, bool, bool, bool)> = vec![]; // .5 = walker resets before this packet // .4 = label memories were re-synchronised after this packet // (offset, len, isolated observation, produced_by_sender_uncorrupted)
         let mut stream_no = 0u32;
@@ -646,7 +650,11 @@ impl Scenario for Flow {
                 // label and is a per-packet rejection: C07 requires that such strays leave the other traffic of the
                 // frame deliverable, label re-use included, so no re-synchronisation is granted there.
                 let continuation_unknown_id = matches!(hdr, Some((Kind::Inter, _, gl)) if gl >= 2) || matches!(hdr, Some((Kind::End, _, gl)) if gl >= 5);
-                let resync_after = force_resync_after || (obs.class == "err" && !(continuation_unknown_id && obs.err == "Mem.UndefinedId"));
+                // The same holds for every refusal of a *sender-produced, undamaged* continuation packet (a superseded
+                // transfer's end fragment failing the length or CRC check, a fragment larger than the storage): it
+                // carries no label, and C04 demands that the PDUs that follow with a compressed label are delivered.
+                let clean_sender_continuation = continuation_unknown_id && clean && fl.is_some();
+                let resync_after = force_resync_after || (obs.class == "err" && !(continuation_unknown_id && obs.err == "Mem.UndefinedId") && !clean_sender_continuation);
                 if resync_after {
                     enc.reset_last_label();
                     led.reset();
@@ -670,6 +678,21 @@ impl Scenario for Flow {
         let mut hist_labels: Vec<Vec<u8>> = vec![];
         for (opi, op) in p.ops.iter().enumerate() {
             ex.log.s(op.name);
+            // an abandoned transfer that was continued by the previous op goes back to the abandoned list
+            {
+                let mut i = 0;
+                while i < flights.len() {
+                    if flights[i].abandoned {
+                        let f = flights.remove(i);
+                        abandoned.push(f);
+                        if abandoned.len() > 3 {
+                            abandoned.remove(0);
+                        }
+                    } else {
+                        i += 1;
+                    }
+                }
+            }
             if opi < 5 {
                 hist5.s(op.name);
                 if op.name == "submit" {
@@ -926,8 +949,27 @@ impl Scenario for Flow {
                                 }
                             }
                         }
-                        // the sender abandons a PDU whose id is reused
-                        flights.retain(|f| f.fid != fid);
+                        // the sender abandons a PDU whose id is reused (it may still emit its remaining fragments: `cont ab=1`)
+                        for f in flights.iter_mut() {
+                            if f.fid == fid {
+                                f.abandoned = true;
+                                f.tainted = true;
+                            }
+                        }
+                        {
+                            let mut i = 0;
+                            while i < flights.len() {
+                                if flights[i].abandoned {
+                                    let f = flights.remove(i);
+                                    abandoned.push(f);
+                                    if abandoned.len() > 3 {
+                                        abandoned.remove(0);
+                                    }
+                                } else {
+                                    i += 1;
+                                }
+                            }
+                        }
                     }
                     let mut pkt = buf[..n].to_vec();
                     let mut clean = true;
@@ -959,6 +1001,7 @@ impl Scenario for Flow {
                         calls_ge13: 0,
                         stream_no,
                         has_ext: !exts.is_empty(),
+                        abandoned: false,
                     };
                     if parsed.kind == Kind::First && parsed.payload.is_empty() {
                         ex.st.inc("probe.zero_payload_first_fragment");
@@ -980,10 +1023,27 @@ impl Scenario for Flow {
                     }
                 }
                 "cont" => {
+                    // ab=1: continue a transfer the sender has abandoned (its frag id was taken by a newer PDU)
+                    if op.get_u("ab") == 1 {
+                        if abandoned.is_empty() {
+                            continue;
+                        }
+                        let ix = op.get_u("fl") as usize % abandoned.len();
+                        let f = abandoned.remove(ix);
+                        // two transfers on one frag id: the receiver can not tell their fragments apart, so the newer
+                        // transfer on that id (or on its slot) has no delivery expectation any more
+                        for g in flights.iter_mut() {
+                            if g.fid as usize % slots == f.fid as usize % slots {
+                                g.tainted = true;
+                            }
+                        }
+                        flights.push(f);
+                        ex.st.inc("probe.abandoned_transfer_continued");
+                    }
                     if flights.is_empty() {
                         continue;
                     }
-                    let fi = op.get_u("fl") as usize % flights.len();
+                    let fi = if op.get_u("ab") == 1 { flights.len() - 1 } else { op.get_u("fl") as usize % flights.len() };
                     let buf_len = (op.get_u("buf") as usize).min(70_000);
                     let flip = op.get_u("flip") as usize;
                     let before = canary(buf_len, opi as u8);
@@ -1387,7 +1447,7 @@ impl Scenario for Flow {
             }
             let mut counts: Vec<usize> = (0..ids.len()).map(|i| word.iter().filter(|w| **w as usize == i).count()).collect();
             counts.sort();
-            if matches!(counts.as_slice(), [2, 2] | [2, 3] | [3, 3] | [2, 2, 2]) && flights.is_empty() {
+            if matches!(counts.as_slice(), [2, 2] | [2, 3] | [3, 3] | [2, 2, 2]) && flights.iter().all(|f| f.abandoned) {
                 let mut h = H64::new();
                 h.b(&word);
                 ex.st.cov("merge_small_shapes_canonical_of_38", h.0);
@@ -1857,6 +1917,25 @@ pub mod gen {
                 2 => ops.push(Op::new("disable")),
                 3 => ops.push(Op::new("max").u("n", *rng.pick(&[0u64, 1, 1, 2, 2, 3, 254, 255]))),
                 4 | 5 => ops.push(cont(rng.below(4) as usize, *rng.pick(&[3usize, 7, 10, 20, 100, 4097, 5000]))),
+                7 if rng.chance(1, 3) => {
+                    // the sender starts X, takes its frag id for Y before X is finished (Y supersedes X in the
+                    // receiver), and still emits what is left of X: fragments the receiver has to refuse without
+                    // touching its label memory, because the PDUs that follow are sent with a compressed label
+                    let la = *rng.pick(&alphabet[..4]);
+                    let lb = *rng.pick(&alphabet[..4]);
+                    let lx = rng.usize_in(30, 120);
+                    let ly = if rng.chance(1, 3) { lx } else { rng.usize_in(30, 120) };
+                    fid = fid.wrapping_add(1);
+                    ops.push(submit(lx, rng.next(), ptype(rng), &la, fid, 13 + rng.usize_in(4, 20), &[]));
+                    ops.push(submit(ly, rng.next(), ptype(rng), &lb, fid, 13 + rng.usize_in(4, 20), &[]));
+                    for _ in 0..rng.usize_in(1, 2) {
+                        ops.push(Op::new("cont").u("fl", 0).u("buf", *rng.pick(&[9u64, 20, 4097, 4097])).u("ab", 1));
+                    }
+                    // the next PDUs carry Y's label (compressed when re-use is on)
+                    ops.push(submit(*rng.pick(&[0usize, 5, 20]), rng.next(), ptype(rng), &lb, fid.wrapping_add(50), 4097, &[]));
+                    ops.push(cont(0, 4097));
+                    ops.push(cont(0, 4097));
+                }
                 6 if rng.chance(1, 3) => {
                     // a fragmented PDU is started and abandoned; the label memories are emptied (frame boundary or a
                     // broadcast packet); the same PDU is sent again on the same frag id, this time with another label
